@@ -235,7 +235,7 @@ where
   // blocked[t]: t answered Blocked and nobody has moved since
   let mut blocked = vec![false; n];
   let mut hang = false;
-  let mut pick = |t: usize, done: &mut Vec<bool>, blocked: &mut Vec<bool>| -> bool {
+  let pick = |t: usize, done: &mut Vec<bool>, blocked: &mut Vec<bool>| -> bool {
     if t >= n || done[t] {
       return true;
     }
